@@ -317,7 +317,7 @@ def find(children, path):
     return cur
 
 
-COMPAT = {"F55": False, "F56": False}   # reference expander imitating exactly one known deviation of libyang
+COMPAT = {"F79": False, "F80": False}   # reference expander imitating exactly one known deviation of libyang
 
 
 def flatten(gen, children):
@@ -334,8 +334,8 @@ def flatten(gen, children):
                         n["iff"] = n["iff"] + v
                     else:
                         done = n.setdefault("_refined", set())
-                        if COMPAT["F56"] and k in done:
-                            continue        # finding F56: the refine of the inner uses wins
+                        if COMPAT["F80"] and k in done:
+                            continue        # finding F80: the refine of the inner uses wins
                         if k in done:
                             gen.nested_refine = True
                         n[k] = v
@@ -351,8 +351,8 @@ def flatten(gen, children):
                 at = next((i for i, x in enumerate(n["children"]) if x.get("_by_uaug")), None)
                 if at is not None:
                     gen.nested_refine = True
-                if COMPAT["F56"] and at is not None:
-                    n["children"][at:at] = add      # finding F56: the augment of the outer uses is applied first
+                if COMPAT["F80"] and at is not None:
+                    n["children"][at:at] = add      # finding F80: the augment of the outer uses is applied first
                 else:
                     n["children"] += add
             for n in inst:
@@ -521,7 +521,7 @@ def node_text(gen, n, flat, ind, pfx=""):
             s += sp + "  default %s;\n" % q(d)
         if n["mandatory"] is not None:
             s += sp + "  mandatory %s;\n" % ("true" if n["mandatory"] else "false")
-    if k == "leaf-list" and flat and (not n.get("min") or COMPAT["F55"]):
+    if k == "leaf-list" and flat and (not n.get("min") or COMPAT["F79"]):
         d = resolve_type(gen, n["type"])["default"]
         if d is not None:
             s += sp + "  default %s;\n" % q(d)   # RFC 7950 §7.7.2: one instance of the type's default value
@@ -783,7 +783,7 @@ DATA_KW = ("container", "leaf", "leaf-list", "list", "choice", "case", "anydata"
 def canon(items, foreign, within=False):
     """sort the runs of data-node siblings that different augmenting modules contributed: nodes named in `foreign`
     (name -> module) are moved behind the others, grouped by module, keeping their relative order inside a module
-    (`within`: also sort inside a module — only used to recognise finding F57)"""
+    (`within`: also sort inside a module — only used to recognise finding F81)"""
     out = []
     own, fr = [], []
     for st, ch in items:
@@ -798,7 +798,7 @@ def canon(items, foreign, within=False):
 
 
 def drop_f55(items):
-    """the compiled text without the `default` statements of leaf-lists that have min-elements >= 1 (finding F55)"""
+    """the compiled text without the `default` statements of leaf-lists that have min-elements >= 1 (finding F79)"""
     out = []
     for st, ch in items:
         ch = drop_f55(ch)
@@ -809,29 +809,29 @@ def drop_f55(items):
 
 
 def explain(cx, d, spec, compiled_structured_hex, compiled_flattened_hex):
-    """Is the difference exactly a known deviation?  F55: the two effective schemas are equal once the type defaults that
-    leaf-lists with min-elements >= 1 inherited are deleted from the structured one.  F56: they are equal when the
+    """Is the difference exactly a known deviation?  F79: the two effective schemas are equal once the type defaults that
+    leaf-lists with min-elements >= 1 inherited are deleted from the structured one.  F80: they are equal when the
     reference expander imitates "the refine / uses-augment of the inner uses is applied after the outer one"."""
     cs = parse_blocks(unhex(compiled_structured_hex).decode())
     if compiled_flattened_hex and drop_f55(cs) == parse_blocks(unhex(compiled_flattened_hex).decode()):
-        return ["F55"]
+        return ["F79"]
     if not d.gen.nested_refine:
         return None
     fs = [x for x in spec.split(";")[0].split("=")[1].split(",") if x]
     enabled = {(f, "base") for f in fs} | ({("af", "aug")} if spec.endswith("=af") else set())
-    COMPAT["F56"] = True
+    COMPAT["F80"] = True
     try:
         fu = d.flattened(enabled)
     finally:
-        COMPAT["F56"] = False
+        COMPAT["F80"] = False
     l = "0 cmp load 0 0,1 base %s %s" % (hexs(spec), " ".join("%s:%s:%s" % (k, nm, hexs(t)) for k, nm, t in fu))
     r = cx.run_impl(HARNESS, [l], component="compile").get("0", ["err"])
     if r[0] == "ok":
         cf = parse_blocks(unhex(r[1]).decode())
         if cf == cs:
-            return ["F56"]
+            return ["F80"]
         if drop_f55(cs) == cf:
-            return ["F55", "F56"]
+            return ["F79", "F80"]
     return None
 
 
@@ -842,7 +842,7 @@ def run_meta(cx):
             "foreign augments, submodule, deviations not-supported/add/replace/delete, if-feature on nodes/uses/augments/refines) rendered "
             "structured and flattened by the RFC reference expander: equal YANG_COMPILED text under several feature sets; all load orders "
             "x immediate/explicit compile of the structured module set give the same effective schema")
-    # witness of F54 (a valid typedef chain that crashes lys_compile_type) from the corpus
+    # witness of F78 (a valid typedef chain that crashes lys_compile_type) from the corpus
     import os
     from vlib import paths
     w = open(os.path.join(paths.CORPUS, "iff", "f54-typedef-chain.yang")).read()
@@ -862,7 +862,7 @@ def run_meta(cx):
     cx.count("witness-f55", True, "meta:witness")
     if drop_f55(parse_blocks(txt("0"))) != parse_blocks(txt("0")):
         cx.fail("compile", "leaf-list with min-elements >= 1 has the default value of its type (RFC 7950 sec. 7.7.2)",
-                {"module": w55, "compiled": txt("0"), "finding_class": "F55"})
+                {"module": w55, "compiled": txt("0"), "finding_class": "F79"})
     cx.count("witness-f56", True, "meta:witness")
     blocks = parse_blocks(txt("1"))
     def get(items, *path):
@@ -872,12 +872,12 @@ def run_meta(cx):
     if "mandatory true" in get(blocks, "module r", "container top", "container c8", "leaf l3") or \
             "max-elements 7" not in get(blocks, "module r", "container top2", "leaf-list ll"):
         cx.fail("compile", "the refine of an inner uses overrides the refine of the outer uses (RFC 7950 sec. 7.13)",
-                {"module": w56, "compiled": txt("1"), "finding_class": "F56"})
+                {"module": w56, "compiled": txt("1"), "finding_class": "F80"})
     cx.count("witness-f57", True, "meta:witness")
     if txt("2") != txt("3"):
         cx.fail("compile", "effective schema depends on load order / compile mode",
                 {"units": [("m", "base", base57), ("m", "aug", aug57)], "order_a": (0, 1), "order_b": (1, 0), "a": [txt("2")], "b": [txt("3")],
-                 "finding_class": "F57" if canon(parse_blocks(txt("2")), {"a1": "0", "a2": "0"}, True) == canon(parse_blocks(txt("3")), {"a1": "0", "a2": "0"}, True) else None})
+                 "finding_class": "F81" if canon(parse_blocks(txt("2")), {"a1": "0", "a2": "0"}, True) == canon(parse_blocks(txt("3")), {"a1": "0", "a2": "0"}, True) else None})
     lines, meta = [], {}
     n = 0
     descs = []
@@ -970,7 +970,7 @@ def run_meta(cx):
             cls = None
             if r[0] == "ok" and ref[di][3][0] == "ok" and \
                     [canon(parse_blocks(unhex(x).decode()), foreign, True) for x in r[1:]] == [canon(parse_blocks(unhex(x).decode()), foreign, True) for x in ref[di][3][1:]]:
-                cls = "F57"   # only the order of nodes added by several augments of ONE module differs
+                cls = "F81"   # only the order of nodes added by several augments of ONE module differs
             cx.fail("compile", "effective schema depends on load order / compile mode",
                     {"features": spec, "units": [(k_, nm, t) for k_, nm, t in su], "order_a": ref[di][1], "explicit_a": ref[di][2],
                      "order_b": perm, "explicit_b": ex,
